@@ -162,10 +162,10 @@ conforming object (labels in encoding order with scalar values, byte strings wit
 theorem cose_objects_survive_transmission (ok : Fdo.Cbor.CertOracle) (v : Fdo.Cbor.Val) (b : Bytes)
     (hl : b.length < 18446744073709551616) :
     (Fdo.Cbor.marshalS Fdo.Gen.Schemas.s_Sign1Tag_Raw_ v = some b →
-      Fdo.Cbor.conf 10000 Fdo.Cbor.maxDepth Fdo.Gen.Schemas.s_Sign1Tag_Raw_ v = true →
+      Fdo.Cbor.conf ok 10000 Fdo.Cbor.maxDepth Fdo.Gen.Schemas.s_Sign1Tag_Raw_ v = true →
       Fdo.Cbor.unmarshalS ok Fdo.Gen.Schemas.s_Sign1Tag_Raw_ b = some v) ∧
     (Fdo.Cbor.marshalS Fdo.Gen.Schemas.s_Mac0Tag v = some b →
-      Fdo.Cbor.conf 10000 Fdo.Cbor.maxDepth Fdo.Gen.Schemas.s_Mac0Tag v = true →
+      Fdo.Cbor.conf ok 10000 Fdo.Cbor.maxDepth Fdo.Gen.Schemas.s_Mac0Tag v = true →
       Fdo.Cbor.unmarshalS ok Fdo.Gen.Schemas.s_Mac0Tag b = some v) :=
   ⟨fun hm hc => Fdo.Cbor.unmarshalS_marshalS ok _ v b (by decide +kernel) (by decide +kernel) hm hc hl,
    fun hm hc => Fdo.Cbor.unmarshalS_marshalS ok _ v b (by decide +kernel) (by decide +kernel) hm hc hl⟩
